@@ -40,4 +40,11 @@ def network_head_above_local_head(case_text, detail):
         return False
 
 
-FEATURES = {f.__name__: f for f in [head_side_crash_inside_delete, dense_blocks_estimate, network_head_above_local_head]}
+def parallel_delete_single_refusal(case_text, detail):
+    """C08/C14/F21: a DeleteRange on the PARALLEL path (range >= threshold) in which a handler refuses one height
+    only, so that other workers go on deleting above it before the error is noticed."""
+    d = _kv(case_text)
+    return d.get("kind") == "parfail" and d.get("only") == "1"
+
+
+FEATURES = {f.__name__: f for f in [head_side_crash_inside_delete, dense_blocks_estimate, network_head_above_local_head, parallel_delete_single_refusal]}
